@@ -201,9 +201,13 @@ async fn he_order_once() {
     let Rig { mut set, log, tx: _tx } = rig(5, Some(Duration::ZERO), None, Some(1));
     {
         let mut fut: Pin<Box<dyn Future<Output = _> + '_>> = Box::pin(set.finish());
-        for _ in 0..20 {
+        for _ in 0..200 {
             assert!(step(&mut fut).await.is_pending());
-            tokio::task::yield_now().await;
+            if starts(&log).len() == 5 {
+                break;
+            }
+            // let the runtime's timer driver turn so that the (zero) stagger delay fires
+            tokio::time::sleep(Duration::from_millis(1)).await;
         }
     }
     assert_eq!(starts(&log), vec![0, 1, 2, 3, 4]);
